@@ -1,3 +1,4 @@
 pub mod rng;
 pub mod runner;
 pub mod tape;
+pub mod crash;
